@@ -1,39 +1,21 @@
 #!/usr/bin/env python3
-"""Regenerates /verif/MANIFEST.json from the table below (claimed checks) + properties.jsonl (not_applicable for the rest)."""
+"""Regenerates /verif/MANIFEST.json from claims.json (claimed checks) + properties.jsonl (not_applicable for the rest)."""
 import json, subprocess, os
 
 HERE = os.path.dirname(os.path.abspath(__file__))
 props = [json.loads(l) for l in open(os.path.join(HERE, "properties.jsonl"))]
+claims = json.load(open(os.path.join(HERE, "claims.json")))
+CLAIMED = claims["claimed"]          # id -> {text, note, ref}
+NA_REASON = claims["not_applicable"]  # id -> reason
+DEFAULT_NA = claims["default_not_applicable"]
 
 TECH = "function contracts (//@ comments, build tag verif) on the real Go functions; weakest-precondition VCs generated over go/ssa by govc; discharged by z3 4.8.12 / z3 5.1.0 / cvc5 1.0"
-
-# id -> (level text, level note, design ref)
-CLAIMED = {
- "C08": ("proof: (1) buildLabelValueKey is proved to return key(labels), the spec function obtained from the assumed contract of strings.ReplaceAll applied to the literals in the code; (2) key is proved injective on tuples of equal length (lemma keyN_inj, by induction, with unique decodability of the escaping as lemma escC_sep) and congruent (keyN_cong); (3) FindLabelValueOrNil/GetDatum/RemoveDatum/ExpireDatum/AppendLabelValue are proved to address the index only through that key and to leave every other key's entry untouched (whole-view postconditions + modifies frames). All inputs, all lengths, no bound.",
-         "assumes the contract of strings.ReplaceAll for one-byte patterns and of strings.Builder; strings are byte lists; integers mathematical; the ∃-direction of the index invariant (every index entry is in the slice) is not part of wf, so 'absent' is stated over the index, not the slice",
-         "DESIGN §8 C08"),
- "C09": ("proof: representation invariant wf(m) (slice and index agree, entries distinct, stored keys consistent) is established by newMetric/NewMetric and preserved by AppendLabelValue, GetDatum, RemoveDatum, ExpireDatum; each has positional whole-view postconditions (wrong length: error and nothing changes; present: that entry's value; absent in the index: appended at the end with a fresh datum; delete: the entry is removed and the order of the others kept; expire: only that entry's expiry changes) and a modifies frame. Loop invariants, no bound.",
-         "JSON marshalling and the datum value types' own Set/Get are outside (C07/C21); enumeration (EmitLabelSets) is covered under C12/C13; T9: wf is assumed for metrics arriving from outside the verified functions",
-         "DESIGN §8 C09"),
- "C21": ("proof: Buckets.Observe is proved against the property's sentence: with wfB(d) (last bound +Inf, bounds strictly increasing, bucket counts sum to Count) it increments exactly the first bucket whose upper bound admits v, or the last one when none does (NaN; IEEE comparison in SMT FloatingPoint), leaves all other buckets and all bounds alone, adds 1 to Count and v to Sum, and re-establishes wfB (sum lemma sumC_store by induction). MakeBuckets is proved to copy the declared bounds in order, add exactly one +Inf bucket iff none is declared, and start with zero counts.",
-         "float addition is SMT fp.add RNE; the initial establishment of the sum/ordering part of wfB by MakeBuckets for sorted input is not proved (quantifier alternation too slow to claim) and the codegen half (declared boundaries -> Range list) is not yet under contract",
-         "DESIGN §8 C21"),
- "C12": ("proof: each of the four export visitors passed to Store.Range (Collect$1, writeSocketMetrics$1, HandleVarz$1, HandleGraphite$1) is proved, on every return path including the error returns, to leave every lock that existed on entry in its entry state (lock.balanced), to have no label-set producer goroutine outstanding (handoff.drained: the channel of every `go EmitLabelSets` spawned in the visitor has been read to its end) and not to release the metric's read lock while the producer still needs it (handoff.lock-cover); EmitLabelSets is proved to send exactly one LabelSet per live tuple, in order, with that tuple's datum, and then close the channel.",
-         "the hand-off rule of DESIGN §3.4 (producer effects applied at the go statement) is trusted; writers, http and context calls are opaque; an export that never ends (blocked writer) and cancellation during a write are outside; Store.Range's own lock balance is covered with C11/C14",
-         "DESIGN §8 C12"),
-}
-
-NA_REASON = {
- "C19": "termination plus exactly-once delivery of a network of goroutines and channels under all schedules; function contracts express neither liveness nor interleavings (DESIGN §9)",
- "C20": "ordering of effects between two VM goroutines across a reload is a happens-before property over schedules; no function's pre/postcondition states it (DESIGN §9)",
- "C23": "parse(unparse(ast)) ≅ ast: parse is goyacc's table-driven automaton whose meaning is the grammar file, outside any contract language over Go functions (DESIGN §9)",
-}
 
 checks, na = [], []
 for p in props:
     pid = p["id"]
     if pid in CLAIMED:
-        text, note, ref = CLAIMED[pid]
+        c = CLAIMED[pid]
         checks.append({
             "property_id": pid,
             "quick_cmd": "./check %s" % pid,
@@ -41,27 +23,27 @@ for p in props:
             "evidence_file": "/verif/evidence/%s.json" % pid,
             "replay_cmd_template": "./check --replay {path}",
             "engine": "govc",
-            "level_claimed": {"category": "proof", "text": text, "design_ref": ref},
-            "level_note": note,
+            "level_claimed": {"category": "proof", "text": c["text"], "design_ref": c["ref"]},
+            "level_note": c["note"],
             "technique": TECH,
         })
     else:
-        na.append({"property_id": pid, "reason": NA_REASON.get(pid, "contracts for this property are not built yet (work in progress; see DESIGN §8 for the plan)")})
+        na.append({"property_id": pid, "reason": NA_REASON.get(pid, DEFAULT_NA)})
 
 try:
     commits = subprocess.check_output(["git", "-C", "/repo", "log", "--format=%H %s"], text=True).splitlines()
-    hooks = [c.split()[0] for c in commits if " verif: " in " " + c.split(" ", 1)[1] + " " or c.split(" ", 1)[1].startswith("verif:")]
+    hooks = [c.split()[0] for c in commits if c.split(" ", 1)[1].startswith("verif:")]
 except Exception:
     hooks = []
 
 m = {
  "version": 1,
  "setup_cmd": "./setup.sh",
- "hooks": {"guard": "verif", "enable": "go build -tags verif ./...  (the only guarded files are comment-only contracts_verif.go files read by govc)",
+ "hooks": {"guard": "verif", "enable": "go build -tags verif ./...  (the only guarded files are comment-only contracts_verif*.go files read by govc)",
            "baseline_off_cmd": "cd /repo && GOFLAGS=-mod=mod GOPROXY=off GOSUMDB=off go test -vet=off -count=1 -timeout 25m ./...",
            "source_commits": hooks, "add_only": True},
  "engines": [{"name": "govc", "path": "govc", "serves_properties": sorted(CLAIMED),
-              "kind_free_text": "self-written deductive verifier for Go: contracts as //@ comments in /repo/internal/**/contracts_verif.go (+ trusted stdlib contracts in /verif/trusted), VC generation over go/ssa (x/tools v0.29.0), one SMT-LIB query per obligation, portfolio of z3 4.8.12, z3 5.1.0, cvc5 1.0"}],
+              "kind_free_text": "self-written deductive verifier for Go: contracts as //@ comments in /repo/internal/**/contracts_verif*.go (+ trusted stdlib contracts in /verif/trusted), VC generation over go/ssa (x/tools v0.29.0), one SMT-LIB query per obligation, portfolio of z3 4.8.12, z3 5.1.0, cvc5 1.0"}],
  "checks": checks,
  "not_applicable": na,
  "notes": "Properties are decided function by function; see DESIGN.md. known_findings.txt lists defects found and fixed (fix: commits in /repo). seeded/ holds property-breaking changes used to test the checks.",
